@@ -231,6 +231,8 @@ def check_inits(ctx):
                 ok, why = True, 'keyword absent: a deep copy of the default'
             elif t == 'defaults[self.field_name]' and '(self.field_name in defaults)' in gt:
                 ok, why = True, 'keyword present'
+            elif t == 'self.default' and cname in DEF and ('(self.field_name not in defaults)' in gt or any(g.startswith("caught('KeyError'") for g in gt)):
+                ok, why = True, 'keyword absent: the (immutable) default'
             if ok:
                 ctx.holds(rule, fi, '%s stores %s' % (label, t), why, st_[0].lineno, clause='b')
             else:
